@@ -281,6 +281,23 @@ func main() {
 		}
 		workerOK = both && loop
 	}
+	fragGoC := parse("internal/dmap/fragment.go")
+	fragComp := funcDecl(fragGoC, "fragment", "Compaction")
+	closedDone := false
+	if fragComp != nil {
+		ast.Inspect(fragComp.Body, func(n ast.Node) bool {
+			if cc, ok := n.(*ast.CommClause); ok && cc.Comm != nil && strings.Contains(src(cc.Comm), "f.ctx.Done()") {
+				for _, st := range cc.Body {
+					if rs, ok := st.(*ast.ReturnStmt); ok {
+						closedDone = strings.Join(strings.Fields(src(rs)), " ") == "return true, nil"
+					}
+				}
+			}
+			return true
+		})
+	}
+	addBool("closed_fragment_compaction_answers_done", closedDone,
+		"fragment.Compaction answers (true, nil) for a closed fragment: the worker's call-until-done loop ends")
 	addBool("compaction_worker_runs_primary_and_backup_until_done", workerOK,
 		"doCompaction runs callCompactionOnFragment on every dmap fragment of the primary and of the backup partition; that function calls f.Compaction() until it answers done")
 
